@@ -28,6 +28,8 @@ pub fn init() {
 mod proj;
 mod walk;
 mod replay;
+mod tablescmd;
+mod fencmd;
 
 fn main() {
     // Panics inside the code under test are data: keep the default hook quiet and let
@@ -45,6 +47,8 @@ fn main() {
         "walk" => walk::main(rest),
         "replay-positions" => replay::positions(rest),
         "replay-game" => replay::game(rest),
+        "tables" => tablescmd::main(rest),
+        "fen" => fencmd::main(rest),
         other => {
             eprintln!("unknown subcommand {other}");
             2
